@@ -133,7 +133,7 @@ def with_die_kills(sc: dict, ch: Choices) -> dict:
 def compact_spec(sc: dict) -> dict:
     keep = ('nodes', 'requested', 'backend', 'max_workers', 'cpu_count', 'cof', 'cached', 'bust_cache', 'fail',
             'kills', 'interrupts', 'io_fault', 'inject_line', 'swarm', 's1', 'storage', 'progress', 'line_yield', 'rel_storage',
-            'chdir_nodes', 'coarse_clock', 'emit')
+            'chdir_nodes', 'coarse_clock', 'emit', 'linger', 'shapes', 'helpers')
     return {k: sc[k] for k in keep if k in sc and sc[k] not in (None, [], {})}
 
 
@@ -408,6 +408,9 @@ class C05(Check):
         cfg = ch.stream('config')
         if cfg.chance(1, 4):
             sc['prelude'] = {'max_workers': cfg.pick([1, 2, 3, None]), 'n': 3}
+        if sc['backend'] in ('fork', 'spawn') and cfg.chance(1, 4):
+            # some task processes stay alive for a while after their task is over (non-daemon threads)
+            sc['linger'] = {str(n['id']): cfg.pick([2.0, 4.0, 7.0]) for n in sc['nodes'] if cfg.chance(1, 3)}
         return with_die_kills(sc, ch)
 
     def oracle(self, sc, out, facts):
@@ -445,6 +448,12 @@ class C11(Check):
             sc['max_workers'] = 1
         if cfg.chance(1, 3):
             sc['progress'] = True
+        if cfg.chance(1, 4):
+            # some tasks fork a helper process that outlives them
+            sc['helpers'] = [n['id'] for n in sc['nodes'] if cfg.chance(1, 3)]
+        if cfg.chance(1, 4):
+            # some results are larger than a pipe buffer
+            sc['shapes'] = {str(n['id']): 'big' for n in sc['nodes'] if n['type'] not in ('TR', 'TZ') and cfg.chance(1, 3)}
         sc = with_die_kills(sc, ch)
         if sc['backend'] in ('fork', 'spawn'):
             ft = ch.stream('fault')
@@ -941,7 +950,7 @@ class C06(Check):
 
     def gen(self, ch, tier):
         sc = gen_scenario(ch, backends=ALL_BACKENDS, cache='never',
-                          types=[('TA', 4), ('TB', 2), ('TC', 2), ('TD', 3), ('TN', 2), ('TP', 2), ('TZ', 1)])
+                          types=[('TA', 4), ('TB', 2), ('TC', 2), ('TD', 3), ('TN', 2), ('TP', 2), ('TZ', 1), ('TW', 1)])
         sc['gen_main'] = 1
         cfg = ch.stream('config')
         if sc['backend'] in ('serial', 'sim') and cfg.chance(1, 4):
